@@ -52,7 +52,7 @@ type Sched struct {
 	done     map[string]bool // goroutines that finished
 
 	onEvent func(g, point string, kv map[string]any, gate bool) // shadow-state update, called under mu
-	rewrite func(g, point string, kv []any) map[string]any     // converts raw kv to loggable fields, called under mu
+	rewrite func(g, point string, kv []any) map[string]any      // converts raw kv to loggable fields, called under mu
 
 	anomalies []string
 	jitter    uint32 // free mode: 1/jitter gates yield
